@@ -480,8 +480,8 @@ Section Arith.
     - destruct (dunder_spec k f x o) as (r & Hr & _ & Hv & _).
       cbn [NumExpr.apply_step] in H. rewrite Hr in H. injection H as <-.
       rewrite Hv. destruct f; reflexivity.
-    - cbn [NumExpr.apply_step] in H. injection H as <-.
-      destruct (unary_spec b x) as (_ & Hv & _). rewrite Hv. destruct b; reflexivity.
+    - unfold NumExpr.apply_step in H. injection H as <-.
+      unfold NumExpr.value. cbn. rewrite as_atom_value. destruct b; reflexivity.
     - cbn [NumExpr.apply_step] in H. injection H as <-. reflexivity.
   Qed.
 
@@ -550,5 +550,17 @@ Section Arith.
   Proof.
     intros v. unfold NumExpr.from_value, NumExpr.add_expr_from_value, NumExpr.value. cbn [body].
     destruct (dltz v); cbn; rewrite ?app_nil_r; split; reflexivity.
+  Qed.
+
+  (* with the three laws of the carrier that `_add_expr_from_value` relies on (validated against CPython's
+     decimal on every scalar the harness uses: dabs = copy_abs, dneg = copy_negate, num_text = format(.,'f')) *)
+  Theorem from_value_exact :
+    (forall v, num_value (num_text (dabs v)) = dabs v) ->
+    (forall v, dltz v = true -> dneg (dabs v) = v) ->
+    (forall v, dltz v = false -> dabs v = v) ->
+    forall v, value (from_value v) = v.
+  Proof.
+    intros Hrt Hneg Hpos v. destruct (from_value_spec v) as (Hv & _). rewrite Hv, Hrt.
+    destruct (dltz v) eqn:E; [apply Hneg | apply Hpos]; exact E.
   Qed.
 End Arith.
